@@ -88,6 +88,9 @@ def main() -> None:
         if not e["ok"] or e["ast"] != p:
             run.correspondence_broken("printer/elab", "elab(parse(print(ast))) != ast", {"case": name})
             break
+    del elabs
+    for r0 in results:
+        r0.pop("sm", None)      # source maps are not looked at here (C08)
     idx = [i for i, r in enumerate(results) if r["ok"]]
     eqs = run_driver([[A("equiv"), src_side(progs[i][1]), ssb_side(results[i]["ops"])] for i in idx])
     failing: list[tuple[int, str]] = []
@@ -109,6 +112,9 @@ def main() -> None:
     # means, and every label pass must keep that meaning (Comp/PopSem.v), decided by the same verified checker
     sub = idx[: (500 if run.tier == "quick" else 4000)]
     caps = run_impl([("capture:compile_capture", texts[i]) for i in sub])
+    for c0 in caps:
+        c0.pop("sm", None)
+        c0.pop("ops", None)
     from capture import pops_sexp
     from core import program_sexp
     cmds, where = [], []
